@@ -1009,3 +1009,8 @@ V("triggers-first-constraint-params", "break", ["C01", "C08", "C13"], PB, _TRG, 
   "the trigger function is given the parameters of the first constraint", "Problem.init", expect_rule="R-TRIGGER-JOIN")
 V("triggers-call-through-local", "neutral", ["C01", "C08", "C13", "C15"], PB, _TRG, "            get_triggers = GET_TRIGGERS_FCTS[prop_algorithm]\n            triggers = get_triggers(len(prop_vars), prop_params)\n",
   "the trigger function held in a local first")
+# ---- R-VALUE-WIDTH (round 6, C13-x3)
+V("props-offsets-16-bit", "break", ["C01", "C13", "C19"], PB, "        self.props_dom_offsets = np.empty(self.var_bounds[-1, RG_END], dtype=np.int32)\n",
+  "        self.props_dom_offsets = np.empty(self.var_bounds[-1, RG_END], dtype=np.int16)\n", "the per-constraint copy of the view offsets stored as 16-bit integers", None, expect_rule="R-VALUE-WIDTH",
+  also=[{"file": "nucs/constants.py", "edits": [{"old": "    int32[:, :],  # props_dom_offsets\n", "new": "    int16[:, :],  # props_dom_offsets\n"},
+                                                {"old": "from numba import bool, int32, int64, types, uint8, uint16  # type: ignore\n", "new": "from numba import bool, int16, int32, int64, types, uint8, uint16  # type: ignore\n"}]}])
